@@ -248,6 +248,8 @@ struct Stats {
     reject_then_accept: u64,
     distinct_sigs: u64,
     history_runs: u64,
+    reseeded_runs: u64,
+    reseeded_changed: u64,
 }
 
 struct Finding {
@@ -447,6 +449,156 @@ fn check_config<H: Enc>(alpha: u32, len: usize, m: usize, l: usize, history_pool
     findings
 }
 
+/// The public way to change the seed, `change_rng_seed()` (it draws from ThreadRng, so the seed differs from run to run):
+/// on one instance reseeded `reseeds` times, every oracle of this property that does not need the seed's value must
+/// still hold - permutations of a multiset select the same pairs, the l smallest race values win (tables re-read from
+/// the real code under the seed the instance reports), one injective tuple -> value map, a repeated call is identical.
+fn reseeded_pass<H: Enc>(alpha: u32, len: usize, m: usize, l: usize, reseeds: usize, st: &mut Stats) -> Vec<Finding> {
+    let mut findings: Vec<Finding> = Vec::new();
+    let seqs = all_sequences(alpha, len);
+    let case_of = |s: &[u32], t: &[u32]| json!({"kind": "reseeded", "hasher": H::label(), "m": m, "l": l, "reseeds": reseeds, "alpha": alpha, "len": len, "seq1": s, "seq2": t});
+    let r = guarded_mut(move || {
+        let mut h = ProbOrdMinHash2::<H>::new(m as u32, l);
+        let default_seed = h.verif_seed();
+        for _ in 0..reseeds {
+            h.change_rng_seed();
+        }
+        let seed = h.verif_seed();
+        let mut runs: Vec<(Vec<u32>, Result<Run, String>, bool)> = Vec::new();
+        for s in &seqs {
+            let enc: Vec<H::Item> = s.iter().map(|e| H::enc(*e)).collect();
+            let plain: Vec<u32> = s.iter().map(|e| H::class(*e)).collect();
+            let sig = h.hash_set(&enc);
+            let run = decode(&h, sig.clone(), m, l, &plain);
+            let again = h.hash_set(&enc);
+            runs.push((s.clone(), run, again == sig));
+        }
+        (default_seed, seed, runs)
+    });
+    let (default_seed, seed, runs) = match r {
+        Ok(x) => x,
+        Err(p) => {
+            findings.push(Finding { key: "reseeded:panic".into(), what: format!("m={} l={} after {} change_rng_seed(): panic {}", m, l, reseeds, p), case: case_of(&[], &[]) });
+            return findings;
+        }
+    };
+    if seed != default_seed {
+        st.reseeded_changed += 1;
+    }
+    st.calls += 2 * runs.len() as u64;
+    st.reseeded_runs += runs.len() as u64;
+    // race tables under the reported seed, from instances with l = occurrences
+    let elements: Vec<u32> = (0..alpha).filter(|e| (0..*e).all(|f| H::class(f) != H::class(*e))).collect();
+    let mut tables: BTreeMap<Pair, Vec<f64>> = BTreeMap::new();
+    for &e in &elements {
+        let c = len.max(1);
+        let enc: Vec<H::Item> = vec![H::enc(e); c];
+        let plain: Vec<u32> = vec![H::class(e); c];
+        let r = guarded_mut(move || {
+            let mut h = ProbOrdMinHash2::<H>::new(m as u32, c);
+            h.verif_set_seed(seed);
+            let sig = h.hash_set(&enc);
+            decode(&h, sig, m, c, &plain)
+        });
+        if let Ok(Ok(r)) = r {
+            for k in 0..m {
+                for (pair, bits) in &r.races[k] {
+                    tables.entry(*pair).or_insert_with(|| vec![f64::NAN; m])[k] = f64::from_bits(*bits);
+                }
+            }
+        }
+    }
+    let mut groups: BTreeMap<Vec<u32>, Vec<usize>> = BTreeMap::new();
+    for (i, (s, _, _)) in runs.iter().enumerate() {
+        let mut key: Vec<u32> = s.iter().map(|e| H::class(*e)).collect();
+        key.sort();
+        groups.entry(key).or_default().push(i);
+    }
+    let mut tuple_to_val: HashMap<Vec<u32>, u64> = HashMap::new();
+    let mut val_to_tuple: HashMap<u64, Vec<u32>> = HashMap::new();
+    for (_, idxs) in groups.iter() {
+        let (s0, r0, _) = &runs[idxs[0]];
+        let r0 = match r0 {
+            Ok(r) => r,
+            Err(e) => {
+                findings.push(Finding { key: "reseeded:hash_set-failure".into(), what: format!("m={} l={} after {} change_rng_seed(): sequence {:?}: {}", m, l, reseeds, s0, e), case: case_of(s0, s0) });
+                continue;
+            }
+        };
+        let c0: Vec<u32> = s0.iter().map(|e| H::class(*e)).collect();
+        let occ0 = occurrences(&c0);
+        let pairs0: BTreeSet<Pair> = c0.iter().zip(occ0.iter()).map(|(e, o)| (*e, *o)).collect();
+        if pairs0.iter().all(|p| tables.get(p).map(|t| t.iter().all(|v| !v.is_nan())).unwrap_or(false)) {
+            for k in 0..m {
+                let mut byval: Vec<(f64, Pair)> = pairs0.iter().map(|p| (tables[p][k], *p)).collect();
+                byval.sort_by(|a, b| a.0.partial_cmp(&b.0).unwrap());
+                let tie = byval.len() > l && byval[l - 1].0 == byval[l].0;
+                let want: BTreeSet<Pair> = byval.iter().take(l).map(|x| x.1).collect();
+                if !tie && want != r0.selected[k] {
+                    findings.push(Finding {
+                        key: "reseeded:selection-not-l-smallest".into(),
+                        what: format!("m={} l={} after {} change_rng_seed() (seed {:#x}): sequence {:?} position {}: selected {:?}, the {} smallest race values belong to {:?}", m, l, reseeds, seed, s0, k, r0.selected[k], l, want),
+                        case: case_of(s0, s0),
+                    });
+                    break;
+                }
+            }
+        } else {
+            findings.push(Finding { key: "reseeded:race-table".into(), what: format!("m={} l={} seed {:#x}: race tables incomplete for {:?}", m, l, seed, s0), case: case_of(s0, s0) });
+        }
+        for &i in idxs.iter() {
+            let (s, r, same_again) = &runs[i];
+            if !*same_again {
+                findings.push(Finding { key: "reseeded:repeat-differs".into(), what: format!("m={} l={} after {} change_rng_seed(): two consecutive hash_set({:?}) calls on the instance differ", m, l, reseeds, s), case: case_of(s, s) });
+            }
+            let r = match r {
+                Ok(r) => r,
+                Err(e) => {
+                    findings.push(Finding { key: "reseeded:hash_set-failure".into(), what: format!("m={} l={} after {} change_rng_seed(): sequence {:?}: {}", m, l, reseeds, s, e), case: case_of(s, s) });
+                    continue;
+                }
+            };
+            if r.selected != r0.selected || (l == 1 && r.sig != r0.sig) {
+                findings.push(Finding {
+                    key: "reseeded:selection-depends-on-order".into(),
+                    what: format!("m={} l={} after {} change_rng_seed(): permutations {:?} and {:?} select {:?} vs {:?} (signatures {:x?} vs {:x?})", m, l, reseeds, s0, s, r0.selected, r.selected, r0.sig, r.sig),
+                    case: case_of(s0, s),
+                });
+            }
+            for k in 0..m {
+                let tup = r.spelled[k].clone();
+                let v = r.sig[k];
+                match tuple_to_val.get(&tup) {
+                    Some(prev) if *prev != v => findings.push(Finding {
+                        key: "reseeded:signature-not-function-of-ordered-elements".into(),
+                        what: format!("m={} l={} after {} change_rng_seed(): sequence {:?} position {}: tuple {:?} signed {:#x}, elsewhere {:#x}", m, l, reseeds, s, k, tup, v, prev),
+                        case: case_of(s0, s),
+                    }),
+                    Some(_) => {}
+                    None => {
+                        tuple_to_val.insert(tup.clone(), v);
+                    }
+                }
+                match val_to_tuple.get(&v) {
+                    Some(prev) if *prev != tup => findings.push(Finding {
+                        key: "reseeded:signature-collision".into(),
+                        what: format!("m={} l={} after {} change_rng_seed(): tuples {:?} and {:?} share the value {:#x}", m, l, reseeds, prev, tup, v),
+                        case: case_of(s0, s),
+                    }),
+                    Some(_) => {}
+                    None => {
+                        val_to_tuple.insert(v, tup);
+                    }
+                }
+            }
+        }
+        if findings.len() > 20 {
+            break;
+        }
+    }
+    findings
+}
+
 pub fn run(ctx: &Ctx) -> i32 {
     let mut st = Stats::default();
     let pool: Vec<Vec<u32>> = vec![vec![0, 1, 2, 3], vec![3, 3, 3], vec![2, 0, 2, 1, 0, 3, 3, 1], vec![1], vec![0, 0, 1, 1, 2, 2, 9, 8, 7], vec![5, 4], vec![]];
@@ -489,6 +641,25 @@ pub fn run(ctx: &Ctx) -> i32 {
             }
         }
     }
+    // instances reseeded through the public change_rng_seed()
+    for &l in &[1usize, 2, 3] {
+        for &m in &[1usize, 2, 4, 5] {
+            for len in l..=ctx.pick(5usize, 6) {
+                for reseeds in 1..=2usize {
+                    configs += 2;
+                    for x in reseeded_pass::<FnvHasher>(3, len, m, l, reseeds, &mut st) {
+                        ctx.violation(&x.key, &x.what, x.case);
+                    }
+                    for x in reseeded_pass::<probminhash::nohasher::NoHashHasher>(3, len, m, l, reseeds, &mut st) {
+                        ctx.violation(&format!("{}:nohash", x.key), &format!("[no-op hasher] {}", x.what), x.case);
+                    }
+                }
+            }
+        }
+    }
+    if st.reseeded_changed == 0 {
+        ctx.violation("reseeded:seed-unchanged", "change_rng_seed() never changed the seed reported by the instance", json!({"kind": "reseeded-unchanged"}));
+    }
     for (i, sv) in SAMPLES.lock().unwrap().iter().enumerate() {
         if i % 17 == 5 {
             ctx.sample(sv.clone());
@@ -517,6 +688,8 @@ pub fn run(ctx: &Ctx) -> i32 {
         "groups_with_several_permutations": st.multi_perm_groups,
         "reject_then_accept_events": st.reject_then_accept,
         "history_runs": st.history_runs,
+        "reseeded_instance_runs": st.reseeded_runs,
+        "reseeded_rule": "instances reseeded once or twice through the public change_rng_seed() (seed from ThreadRng, read back through the hook): every sequence of length l..5 (6) over 3 letters on ONE instance, Fnv and no-op hasher: permutation-invariant selection, the l smallest race values win (tables re-read under the reported seed), one injective tuple -> value map per instance, an immediate second call returns the same signature",
     });
     ctx.finish(
         "model_checking",
@@ -577,6 +750,17 @@ pub fn replay(_ctx: &Ctx, case: &Value) -> Result<(bool, String), String> {
             }
             let r = run_on(&mut h, m, l, &t)?;
             Ok((r.sig != base.sig, format!("first-call sig {:x?} after-history sig {:x?}", base.sig, r.sig)))
+        }
+        Some("reseeded") => {
+            // the seed is drawn by the crate from ThreadRng: the replay repeats the whole pass of that configuration
+            let (alpha, len, reseeds) = (case["alpha"].as_u64().ok_or("alpha")? as u32, case["len"].as_u64().ok_or("len")? as usize, case["reseeds"].as_u64().ok_or("reseeds")? as usize);
+            let mut st = Stats::default();
+            let f = if case["hasher"].as_str().map(|h| h.starts_with("NoHash")).unwrap_or(false) {
+                reseeded_pass::<probminhash::nohasher::NoHashHasher>(alpha, len, m, l, reseeds, &mut st)
+            } else {
+                reseeded_pass::<FnvHasher>(alpha, len, m, l, reseeds, &mut st)
+            };
+            Ok((!f.is_empty(), f.first().map(|x| x.what.clone()).unwrap_or_else(|| "no finding on replay".into())))
         }
         _ => Err("kind".into()),
     }
